@@ -16,9 +16,11 @@
 //   rec | chunk                                   NextRecord / NextChunk               -> rec|chunk <hex> / false
 //   drain rec|chunk                               to the end of the pass               -> blobs <hex>* end
 //   bf | reset <k> <n>                            BeforeFirst / ResetPartition         -> ok | err:check
+//   hint <bytes>                                  HintChunkSize (sizes cells allocated later; no visible effect) -> ok
 //   reopen                                        destroy, construct again (same arguments, same cache) -> ok
 //   destroy                                       delete the object                    -> ok
 //   cache                                         bytes of the cache file (expected name) -> cache <hex> | cache none | cache nd
+//   cname <k> <n>                                 dmlc::io::URISpec("/d/f0#cb", k, n).cache_file -> cname <name>
 // Canonicalisation: after a dmlc::Error the object is `poisoned`; once the process died with a sanitizer
 // report every result from the point where the undefined behaviour became possible is `ub:oob`; a cache
 // file that is still being written (first pass, object alive) has timing-dependent content: `cache nd`.
@@ -54,6 +56,7 @@
 #include <io/recordio_split.h>
 #include <io/threaded_input_split.h>
 #include <io/cached_input_split.h>
+#include <io/uri_spec.h>
 #undef private
 #undef protected
 #include "h_wrappers_vs.h"
@@ -287,6 +290,15 @@ struct Child {
       if (spec.n == 0) return "bad-op";
       return construct();
     }
+    if (op == "cname" && w.size() == 3) {
+      try {
+        dmlc::io::URISpec us("/d/f0#cb", static_cast<unsigned>(strtoul(w[1].c_str(), nullptr, 10)),
+                             static_cast<unsigned>(strtoul(w[2].c_str(), nullptr, 10)));
+        return "cname " + us.cache_file;
+      } catch (const dmlc::Error &) {
+        return "err:check";
+      }
+    }
     if (op == "cache") {
       if (spec.kind == ObjSpec::NONE || spec.cname.empty() || spec.cname == "-") return "cache none";
       bool ok;
@@ -308,6 +320,7 @@ struct Child {
     try {
       if (op == "rec" || op == "chunk") return one(op == "rec");
       if (op == "bf") { split->BeforeFirst(); return "ok"; }
+      if (op == "hint" && w.size() == 2) { split->HintChunkSize(strtoull(w[1].c_str(), nullptr, 10)); return "ok"; }
       if (op == "reset" && w.size() == 3) {
         unsigned k = strtoul(w[1].c_str(), nullptr, 10), n = strtoul(w[2].c_str(), nullptr, 10);
         if (n == 0) return "bad-op";
@@ -610,9 +623,11 @@ struct WrapHarness : vh::Harness {
     size_t w = 1;
     std::string cfile, what = "construction";
     std::map<std::string, int> cache;   // 0 absent 1 complete 2 nd
+    std::map<std::string, std::pair<unsigned long, unsigned long>> names_seen;
     std::vector<std::pair<std::string, bool>> seg;
     bool ub = cur.death.compare(0, 5, "asan:") == 0;
-    auto tag = [&](const std::string &cls) { return "class=" + cls + " prop=C10 "; };
+    const std::string pr = prop.empty() ? std::string("C10") : prop;
+    auto tag = [&](const std::string &cls) { return "class=" + cls + " prop=" + pr + " "; };
     auto close_seg = [&](bool final_full) {
       if (!alive) { seg.clear(); return; }
       std::vector<std::string> got, want;
@@ -666,6 +681,22 @@ struct WrapHarness : vh::Harness {
       const std::string &r = res[i];
       if (wd.empty()) continue;
       if (wd[0] == "file" || wd[0] == "recfile") { fl.apply(wd); continue; }
+      if (wd[0] == "cname" && wd.size() == 3) {
+        // documented name: <cachefile>.split<n>.part<k> (nothing for a single part); distinct parts, distinct files
+        unsigned long pk = strtoul(wd[1].c_str(), nullptr, 10), pn = strtoul(wd[2].c_str(), nullptr, 10);
+        std::string want = expected_cache_name("cb", static_cast<unsigned>(pk), static_cast<unsigned>(pn));
+        std::string got = r.compare(0, 6, "cname ") == 0 ? r.substr(6) : r;
+        if (got != want)
+          fail->push_back(tag("none") + "URISpec names the cache file of part " + wd[1] + " of " + wd[2] + " '" + got +
+                          "', documented: '" + want + "'");
+        auto key = std::make_pair(pk, pn);
+        auto it = names_seen.find(got);
+        if (it != names_seen.end() && it->second != key)
+          fail->push_back(tag("none") + "parts (" + std::to_string(it->second.first) + "," + std::to_string(it->second.second) +
+                          ") and (" + wd[1] + "," + wd[2] + ") share the cache file '" + got + "'");
+        names_seen[got] = key;
+        continue;
+      }
       if (wd[0] == "newt" || wd[0] == "newc" || wd[0] == "create") {
         end_obj();
         have = true;
@@ -788,6 +819,8 @@ struct WrapHarness : vh::Harness {
       else if (o.compare(0, 5, "reset") == 0) rs = true;
       else if (o == "reopen") ro = true;
     }
+    for (auto &o : c.ops)
+      if (o.compare(0, 6, "cname ") == 0) return "names";
     if (!t && !ca && !cr) return "";
     s += t ? "-threaded" : "";
     s += ca ? "-cached" : "";
@@ -898,6 +931,131 @@ struct Gen {
       std::string f;
       for (int i = 0; i < 120; ++i) f += "line" + std::to_string(i) + "\n";
       c.ops = {"file 0 " + hexs(f), "newc text 0 1 2 pc", "rec", "reopen", "drain rec", "cache"};
+      R.run_case(c);
+    }
+  }
+
+  // URISpec cache-file names: boundary and random (k, n), and which file InputSplit::Create really writes
+  void names() {
+    std::vector<uint64_t> ns = {1, 2, 9, 10, 11, 99, 100, 101, 999, 1000, 1001, 9999, 10000, 65535, 65536, 99999, 100000,
+                                999999999ULL, 1000000000ULL, 4294967295ULL};
+    for (int r = 0; r < (R.thorough() ? 60 : 12); ++r) {
+      uint64_t hi = 1ULL << (1 + rng.below(32));
+      ns.push_back(1 + rng.below(std::min<uint64_t>(hi, 4294967295ULL)));
+    }
+    Case cross;
+    cross.kind = "native names cross";
+    for (uint64_t n : ns) {
+      Case c;
+      c.kind = "native names n=" + std::to_string(n);
+      std::vector<uint64_t> ks = {0, 1, 2, 8, 9, 10, 11, 19, 98, 99, 100, 101, 109, 110, 999, 1000, 1001, 9999, 10000, 99999, 100000,
+                                  n / 10, n / 2, n - 2, n - 1, rng.below(n), rng.below(n)};
+      std::set<uint64_t> seen;
+      for (uint64_t k : ks)
+        if (k < n && seen.insert(k).second) {
+          c.ops.push_back("cname " + std::to_string(k) + " " + std::to_string(n));
+          if (cross.ops.size() < 400 && rng.chance(1, 3)) cross.ops.push_back(c.ops.back());
+        }
+      R.run_case(c);
+    }
+    R.run_case(cross);
+    // through InputSplit::Create: the file that appears is the documented one, and parts do not share it
+    std::string f;
+    for (int i = 0; i < 300; ++i) f += "r" + std::to_string(i) + "\n";
+    for (auto kn : std::vector<std::pair<unsigned, unsigned>>{{10, 100}, {1, 100}, {99, 100}, {9, 10}, {5, 1000}, {123, 1000}, {12, 1000}}) {
+      Case c;
+      c.kind = "native names create " + std::to_string(kn.first) + "/" + std::to_string(kn.second);
+      std::string cr = "create text " + std::to_string(kn.first) + " " + std::to_string(kn.second) + " nm " + KB;
+      c.ops = {"file 0 " + hexs(f), cr, "drain rec", "bf", "cache", "drain rec"};
+      // a second part whose name collides with this one when the suffix is cut short
+      unsigned k2 = kn.first >= 10 ? kn.first / 10 : kn.first * 10 + 1;
+      if (k2 < kn.second && k2 != kn.first) {
+        c.ops.push_back("create text " + std::to_string(k2) + " " + std::to_string(kn.second) + " nm " + KB);
+        c.ops.push_back("drain rec");
+        c.ops.push_back("bf");
+        c.ops.push_back("cache");
+      }
+      R.run_case(c);
+    }
+  }
+
+  // ---- property C05 behind the PREFETCHING wrapper: BeforeFirst / ResetPartition at any point = a fresh split ----
+  void c05() {
+    std::string tfile = "file 0 " + hexs("l0\nl1\nl2\nl3\nl4\nl5\nl6\nl7\nl8\nl9\n");
+    std::string rfile = "recfile 0 " + hexs("r0") + " " + hexs("r1r1r") + " " + hexs("r2") + " " + hexs(std::string(11, 'q')) + " " + hexs("r4");
+    auto ctor = [&](bool text, bool create, unsigned k, unsigned n, size_t w) {
+      if (create) return "create " + fmt(text) + " " + std::to_string(k) + " " + std::to_string(n) + " - " + KB;
+      return "newt " + fmt(text) + " " + std::to_string(k) + " " + std::to_string(n) + " " + std::to_string(w) + " 1 0";
+    };
+    // the shapes named in the property text
+    std::vector<std::vector<std::string>> hand = {
+        {"reset 0 1", "drain rec"},                              // first reset selects (0,1) on a split created for (1,2)
+        {"reset 1 2", "drain rec"},                              // reset to the creation partition
+        {"rec", "reset 1 2", "drain rec"},                       // ... after partial consumption
+        {"rec", "reset 0 1", "rec", "reset 0 1", "drain rec"},   // the same partition twice
+        {"reset 0 2", "drain chunk", "reset 1 2", "drain rec"},
+        {"rec", "reset 3 2", "drain rec", "reset 1 2", "drain rec"},   // empty part (k >= n), then back
+        {"chunk", "bf", "rec", "reset 0 1", "bf", "drain rec"},
+        {"drain rec", "reset 0 1", "drain rec", "bf", "drain chunk"},
+    };
+    for (int text = 0; text < 2; ++text)
+      for (int create = 0; create < 2; ++create)
+        for (auto &h : hand) {
+          Case c;
+          c.kind = std::string("native c05 hand ") + (create ? "create" : "direct");
+          c.ops.push_back(text ? tfile : rfile);
+          c.ops.push_back(ctor(text, create, 1, 2, text ? 1 : 3));
+          for (auto &o : h) c.ops.push_back(o);
+          R.run_case(c);
+        }
+    // every history of length <= 2 (thorough 3) over the alphabet, split created for part 1 of 2 and for 0 of 1
+    std::vector<std::string> alpha = {"rec", "chunk", "bf", "reset 0 1", "reset 1 2", "reset 0 2", "reset 2 2", "hint 64"};
+    size_t L = R.thorough() ? 3 : 2;
+    for (int text = 0; text < 2; ++text)
+      for (int create = 0; create < 2; ++create)
+        for (int part = 0; part < 2; ++part) {
+          std::vector<size_t> idx;
+          for (size_t len = 1; len <= L; ++len) {
+            idx.assign(len, 0);
+            for (;;) {
+              Case c;
+              c.kind = std::string("native c05 exhaustive ") + (create ? "create" : "direct");
+              c.ops.push_back(text ? tfile : rfile);
+              c.ops.push_back(ctor(text, create, part ? 1 : 0, part ? 2 : 1, text ? 2 : 3));
+              for (size_t i = 0; i < len; ++i) c.ops.push_back(alpha[idx[i]]);
+              c.ops.push_back("drain rec");
+              R.run_case(c);
+              size_t p = len;
+              while (p > 0 && ++idx[p - 1] == alpha.size()) idx[--p] = 0;
+              if (p == 0) break;
+            }
+          }
+        }
+    // random inputs, partitions and histories
+    size_t nr = R.thorough() ? 2500 : 350;
+    for (size_t q = 0; q < nr; ++q) {
+      Case c;
+      bool text = rng.chance(1, 2), create = rng.chance(1, 2);
+      c.kind = std::string("native c05 random ") + (create ? "create" : "direct");
+      add_files(&c, text, 1 + rng.below(3), 9, 12);
+      unsigned n = 1 + rng.below(4), k = rng.below(n);
+      c.ops.push_back(ctor(text, create, k, n, text ? 1 + rng.below(5) : 2 + rng.below(5)));
+      size_t len = 2 + rng.below(R.thorough() ? 30 : 12);
+      for (size_t i = 0; i < len; ++i) {
+        unsigned x = rng.below(100);
+        if (x < 25) c.ops.push_back("rec");
+        else if (x < 38) c.ops.push_back("chunk");
+        else if (x < 50) c.ops.push_back("bf");
+        else if (x < 56) c.ops.push_back(rng.chance(1, 2) ? "drain rec" : "drain chunk");
+        else if (x < 60) c.ops.push_back("hint " + std::to_string(rng.below(400)));
+        else if (x < 68) c.ops.push_back("reset " + std::to_string(k) + " " + std::to_string(n));      // creation partition
+        else if (x < 76) c.ops.push_back("reset 0 1");
+        else {
+          unsigned n2 = 1 + rng.below(4);
+          c.ops.push_back("reset " + std::to_string(rng.below(n2 + (rng.chance(1, 6) ? 2 : 0))) + " " + std::to_string(n2));
+        }
+      }
+      c.ops.push_back(rng.chance(1, 2) ? "drain rec" : "drain chunk");
       R.run_case(c);
     }
   }
@@ -1070,7 +1228,13 @@ int main(int argc, char **argv) {
   signal(SIGPIPE, SIG_IGN);
   if (!R.run_replay()) {
     Gen g(R, H);
+    if (H.prop == "C05") {
+      g.c05();
+      R.finish();
+      return 0;
+    }
     g.corpus();
+    g.names();
     g.exhaustive_small();
     g.random_native(R.thorough() ? 2500 : 260);
     g.explore();
